@@ -152,7 +152,7 @@ func Run(sc Scenario, root string, rseed int64) *Outcome {
 			out.MaxShards = w.NumShards()
 		}
 		// per-cycle obligation: all shards in sync + an eligible unscraped target left unplaced => more shards requested
-		if co.AllSync && co.N > 0 {
+		if co.AllSync { // also with zero shards: then nothing can be out of sync
 			var unplaced []int
 			for _, id := range w.Discovered() {
 				_, _, health := w.Estimate(id)
@@ -519,6 +519,22 @@ func GenSpec(r *core.Rng) Spec {
 func GenWorkload(r *core.Rng, spec Spec) Scenario {
 	sc := Scenario{Spec: spec, Perturbed: 4 + r.Intn(8)}
 	nextID := len(spec.Targets)
+	if r.Intn(6) == 0 {
+		// drain and refill: every target disappears early (shards go idle, may be scaled away down to
+		// min-shard, possibly to zero), new targets arrive towards the end of the phase
+		sc.Perturbed = 9 + r.Intn(4)
+		for _, t := range spec.Targets {
+			sc.Events = append(sc.Events, Event{AtCycle: 1, Kind: "remove", Target: TargetSpec{ID: t.ID}})
+		}
+		for k := 0; k < 1+r.Intn(3); k++ {
+			sc.Events = append(sc.Events, Event{AtCycle: sc.Perturbed - 2, Kind: "add", Target: TargetSpec{ID: nextID, Kept: keptSizes[r.Intn(5)], Drop: r.PickI(0, 5), Explorer: "up"}})
+			nextID++
+		}
+		for c := 0; c < sc.Perturbed; c++ {
+			sc.ScrapePlan = append(sc.ScrapePlan, []int{3, 3, 3, 3, 3, 3, 3, 3})
+		}
+		return sc
+	}
 	for c := 0; c < sc.Perturbed; c++ {
 		switch r.Intn(6) {
 		case 0:
